@@ -2,6 +2,7 @@
 //! enumeration, input enumeration.
 mod envcheck;
 mod crashx;
+mod dsp;
 mod envx;
 mod formats;
 mod graphx;
@@ -40,6 +41,7 @@ fn main() {
             "crashx" => crashx::replay_json(&v["replay"]),
             "maps" => maps::replay_json(&v["replay"]),
             "formats" => formats::replay_json(&v["replay"]),
+            "dsp" => dsp::replay_json(&v["replay"]),
             e => Err(format!("unknown engine {e:?}")),
         };
         match r {
@@ -68,6 +70,7 @@ fn main() {
         "crash" => crashx::run(tier, shard),
         "maps" => maps::run(tier, shard),
         "formats" => formats::run(tier, shard),
+        "dsp" => dsp::run(tier, shard),
         _ => usage(),
     };
     rep.emit();
